@@ -51,9 +51,13 @@ func c02Doc(t *rapid.T) *jsonx.Val {
 }
 
 func c02Pattern(t *rapid.T, cfg c02Cfg) *ast.Node {
-	switch rapid.IntRange(0, 9).Draw(t, "patkind") {
+	switch rapid.IntRange(0, 10).Draw(t, "patkind") {
 	case 0, 1, 2:
 		return nil
+	case 10:
+		// the pattern itself runs `next` (inside a function): the remaining rules for the
+		// element are abandoned just as when a body runs it
+		return ast.Call(ast.Id("gate"), c02Cond(t, "pattern", cfg), rapid.SampledFrom([]*ast.Node{ast.True(), ast.False(), ast.Num("1"), ast.Str("")}).Draw(t, "gateres").Clone())
 	case 3, 4:
 		// constants of every truthiness class
 		return rapid.SampledFrom([]*ast.Node{
@@ -269,6 +273,18 @@ func genC02(t *rapid.T) (*DCase, map[string]bool) {
 				counts["END"]++
 			}
 		}
+	}
+	usesGate := false
+	for _, it := range items {
+		it.Walk(func(n *ast.Node) {
+			if n.K == "id" && string(n.S) == "gate" {
+				usesGate = true
+			}
+		})
+	}
+	if usesGate {
+		labels["next-inside-a-pattern"] = true
+		items = append(items, ast.Func("gate", []string{"c", "r"}, ast.Block(ast.If(ast.Id("c"), ast.Block(ast.Next())), ast.Return(ast.Id("r")))))
 	}
 	c.Prog = ast.Prog(items...)
 	kindsPresent, multi := 0, false
